@@ -44,8 +44,8 @@ type sweepCtl struct {
 	slowKeys bool
 }
 
-func newSweepCtl(l *lab.Lab) *sweepCtl {
-	s := &sweepCtl{l: l}
+func newSweepCtl(l *lab.Lab, slowKeys bool, delay *lab.Delayer) *sweepCtl {
+	s := &sweepCtl{l: l, slowKeys: slowKeys, delay: delay} // set before the hook is installed: the hook reads them unlocked
 	s.cond = sync.NewCond(&s.mu)
 	l.SetHook(s.hook)
 	return s
@@ -256,8 +256,15 @@ func newC14Env(c *Ctx, cs c14Case, nkeys int, setbuf int) *c14Env {
 		return nil
 	}
 	e := &c14Env{c: c, cs: cs, l: l, cl: l.NewClient()}
-	e.sw = newSweepCtl(l)
+	e.sw = newSweepCtl(l, cs.Kind == "stress", stressDelayer(cs))
 	return e
+}
+
+func stressDelayer(cs c14Case) *lab.Delayer {
+	if cs.Kind != "stress" {
+		return nil
+	}
+	return lab.NewDelayer(cs.Stream, 1)
 }
 
 // alignToBucket sleeps until the fractional part of the wall-clock second is below 250 ms, so that entries
@@ -672,8 +679,6 @@ func c14Stress(c *Ctx, cs c14Case) {
 	}
 	defer e.l.Forget()
 	l := e.l
-	e.sw.slowKeys = true
-	e.sw.delay = lab.NewDelayer(cs.Stream, 1)
 	workers := 4
 	clients := make([]*lab.Client, workers)
 	for i := range clients {
